@@ -25,8 +25,8 @@ RULE = (
   "scenario reports >=1 pair and filters >=1 pair (or carries an explicit pair); distinct = hash of the scenario spec"
 )
 BOUNDS = {
-  "quick": "<=3 bodies (+world geom), masks {0,1,2,3}: 256 per 2-geom config (80 configs), 4096 on one 3-geom topology, family C with 2 mask assignments",
-  "thorough": "as quick + family B on 4 topologies, family C with 4 mask assignments and reversed exclude/pair attribute order",
+  "quick": "<=3 bodies (+world geom), masks {0,1,2,3}: 256 per 2-geom config (80 configs), 4096 on one 3-geom topology, family C (single exclude / single pair / both on one pair) with 2 mask assignments",
+  "thorough": "as quick + family B on 4 topologies, family C with the full exclude x pair product, 4 mask assignments and reversed exclude/pair attribute order",
 }
 ASSUMPTIONS = [
   "MuJoCo C 3.13 mj_collision is the reference for the reported pair set and for explicit-pair parameters",
@@ -92,9 +92,16 @@ def scenarios(tier, seed):
     # body indices for exclude: 0 = world (only when a world geom exists), 1..3 bodies
     bodies = ([0] if t["wg"] else []) + list(range(1, nb + 1))
     bpairs = list(itertools.combinations(bodies, 2))
+    body_of = ([0] if t["wg"] else []) + list(range(1, nb + 1))  # geom -> body
+    if tier == "thorough":
+      combos = [(ex, pr) for ex in [None] + bpairs for pr in [None] + gpairs]
+    else:
+      # quick: every single exclude, every single explicit pair, and the two on the same body/geom pair (pair overrides exclude)
+      combos = [(None, None)] + [(ex, None) for ex in bpairs] + [(None, pr) for pr in gpairs]
+      combos += [(tuple(sorted((body_of[pr[0]], body_of[pr[1]]))), pr) for pr in gpairs]
     for fp in (1, 0):
-      for ex in [None] + bpairs:
-        for pr in [None] + gpairs:
+      for ex, pr in combos:
+        if True:
           orders = (0, 1) if (tier == "thorough" and (ex or pr)) else (0,)
           for rev in orders:
             out.append(
